@@ -3,6 +3,7 @@ package syncer
 import (
 	"context"
 	"fmt"
+	"github.com/PowerDNS/lightningstream/utils/verifhook"
 	"strings"
 	"time"
 
@@ -45,6 +46,7 @@ func (s *Syncer) SendOnce(ctx context.Context, env *lmdb.Env) (txnID header.TxnI
 		inTxn = env.Update
 	}
 
+	verifhook.Yield("send.beforeTxn", s.instanceID())
 	err = inTxn(func(txn *lmdb.Txn) error {
 		// Call hook if defined
 		if s.hooks.BeforeRead != nil {
@@ -68,6 +70,7 @@ func (s *Syncer) SendOnce(ctx context.Context, env *lmdb.Env) (txnID header.TxnI
 
 		// Determine snapshot timestamp after we opened the transaction
 		ts = time.Now()
+		ts = verifhook.Now("send.ts", ts)
 		tTxnAcquire = ts
 		tsNano := header.TimestampFromTime(ts)
 		msg.Meta.TimestampNano = uint64(tsNano)
@@ -128,6 +131,7 @@ func (s *Syncer) SendOnce(ctx context.Context, env *lmdb.Env) (txnID header.TxnI
 		return 0, err
 	}
 	tDumped := time.Now()
+	verifhook.Yield("send.afterTxn", s.instanceID())
 
 	// If no actual changes were made, LMDB will not record the transaction
 	// and reuse the ID the next time, so we need to adjust the txnID we return.
@@ -190,6 +194,7 @@ func (s *Syncer) SendOnce(ctx context.Context, env *lmdb.Env) (txnID header.TxnI
 	metricSnapshotsLastTimestamp.WithLabelValues(s.name).Set(float64(ts.UnixNano()) / 1e9)
 	metricSnapshotsLastSize.WithLabelValues(s.name).Set(float64(len(out)))
 
+	verifhook.Yield("send.beforeStore", s.instanceID())
 	// Send it to storage
 	for i := 0; i < s.c.StorageRetryCount || s.c.StorageRetryForever; i++ {
 		metricSnapshotsStoreCalls.Inc()
@@ -233,6 +238,7 @@ func (s *Syncer) SendOnce(ctx context.Context, env *lmdb.Env) (txnID header.TxnI
 		return 0, err
 	}
 	tStored := time.Now()
+	verifhook.Yield("send.afterStore", s.instanceID())
 
 	var compressionRatio string
 	if dds.CompressedSize > 0 {
